@@ -1,6 +1,8 @@
 //! C16 — generated mipmaps have the declared sizes and preserve flat colour and opacity.
 //!
-//! Case line:  `M <w> <h> <chan> <prec> <filter> <sa> <variant> <content> <seed>`
+//! Case line:  `M <w> <h> <chan> <prec> <filter> <sa> <variant> <content> <seed> [m:<levels>]`
+//!   m:<levels>  optional: the header declares this many levels (1..255) instead of the full chain — fewer
+//!           (the chain stops early) or MORE than the image can be halved (every level past 1x1 is 1x1 again)
 //!   chan    g | a | rgb | rgba            prec  u8 | u16 | f32
 //!   filter  nearest | box | triangle | mitchell | lanczos3        sa  0 | 1 (resize_straight_alpha)
 //!   variant al (4-aligned, contiguous) | o1 | o2 | o3 (contiguous at buffer offset 1..3) | st (strided)
@@ -15,6 +17,10 @@
 //! tools/propcfg/C16.py `equal` demands that the index is a member of the observed set.
 //!
 //! Oracle (independent of the Lean model): see `run`.
+//!
+//! Further kinds: `S` (six cube faces through one encoder, `run_seq`), `P` (single image, chain started in the
+//! middle, `run_pseq`), `T` (image / cube map / texture array with any declared level count, every element's
+//! chain started at its own level, all colour formats, `run_tseq`).
 
 use crate::common::Rng;
 use dds::{
@@ -111,6 +117,8 @@ struct Cfg {
     variant: String,
     content: String,
     seed: u64,
+    /// declared number of levels; None = full chain (`Encoder::new_image(.., true)`)
+    mips: Option<u32>,
 }
 
 fn chan_name(c: Channels) -> &'static str {
@@ -180,9 +188,19 @@ fn target(chan: Channels, prec: Prec) -> Format {
 
 fn parse(line: &str) -> Option<Cfg> {
     let t: Vec<&str> = line.split_whitespace().collect();
-    if t.len() != 10 || t[0] != "M" {
+    if (t.len() != 10 && t.len() != 11) || t[0] != "M" {
         return None;
     }
+    let mips = match t.get(10) {
+        None => None,
+        Some(m) => {
+            let m: u32 = m.strip_prefix("m:")?.parse().ok()?;
+            if m == 0 || m > 255 {
+                return None;
+            }
+            Some(m)
+        }
+    };
     let w: u32 = t[1].parse().ok()?;
     let h: u32 = t[2].parse().ok()?;
     if w == 0 || h == 0 || w > 4096 || h > 4096 {
@@ -200,7 +218,7 @@ fn parse(line: &str) -> Option<Cfg> {
         return None;
     }
     let seed: u64 = t[9].parse().ok()?;
-    Some(Cfg { w, h, chan, prec, filter, sa, variant: t[7].into(), content: t[8].into(), seed })
+    Some(Cfg { w, h, chan, prec, filter, sa, variant: t[7].into(), content: t[8].into(), seed, mips })
 }
 
 fn const_colour(content: &str) -> Option<[u32; 4]> {
@@ -360,7 +378,14 @@ fn chain(img: &Img, c: &Cfg, variant: &str, seed: u64) -> Result<(Vec<Img>, usiz
     let view = ImageView::new_with(&bytes[off..off + len], pitch, size, color).ok_or("err view")?;
     let mut file: Vec<u8> = Vec::new();
     {
-        let mut enc = Encoder::new_image(&mut file, size, format, true).map_err(|e| format!("err new {e:?}"))?;
+        let mut enc = match c.mips {
+            None => Encoder::new_image(&mut file, size, format, true),
+            Some(m) => {
+                let header = dds::header::Header::new_image(size.width, size.height, format).with_mipmap_count(m);
+                Encoder::new(&mut file, format, &header)
+            }
+        }
+        .map_err(|e| format!("err new {e:?}"))?;
         enc.mipmaps.generate = true;
         enc.mipmaps.resize_filter = c.filter;
         enc.mipmaps.resize_straight_alpha = c.sa;
@@ -387,7 +412,7 @@ fn chain(img: &Img, c: &Cfg, variant: &str, seed: u64) -> Result<(Vec<Img>, usiz
         dec.read_surface(v).map_err(|e| format!("err read {e:?}"))?;
         levels.push(Img::from_bytes(lw, lh, img.nch, img.prec, &buf));
         data_bytes += lw * lh * (format_bpp(format));
-        if levels.len() > 40 {
+        if levels.len() > 300 {
             return Err("err too-many-levels".into());
         }
     }
@@ -486,7 +511,11 @@ fn observe_plan(levels: &[Img], filter: ResizeFilter) -> String {
 
 // ---------------------------------------------------------------------------------------------------------
 
-fn expected_sizes(w: u32, h: u32) -> Vec<(u32, u32)> {
+fn expected_sizes(w: u32, h: u32, declared: Option<u32>) -> Vec<(u32, u32)> {
+    if let Some(m) = declared {
+        // declared by Header::with_mipmap_count: exactly m levels, 1x1 again past the end of the full chain
+        return (0..m).map(|l| (w.checked_shr(l).unwrap_or(0).max(1), h.checked_shr(l).unwrap_or(0).max(1))).collect();
+    }
     // declared by Header::with_mipmaps: levels until both dimensions have reached 1
     let mut v = Vec::new();
     let mut l = 0u32;
@@ -679,6 +708,288 @@ fn run_pseq(t: &[&str]) -> Option<(String, Vec<String>)> {
     Some((format!("pseq ok gen={written_by_call} done={}", gen_bytes as u8), oracle))
 }
 
+/// growable sink shared with the encoder, so that the file length can be read between calls
+#[derive(Clone)]
+struct Sink(std::rc::Rc<std::cell::RefCell<Vec<u8>>>);
+impl std::io::Write for Sink {
+    fn write(&mut self, buf: &[u8]) -> std::io::Result<usize> {
+        self.0.borrow_mut().extend_from_slice(buf);
+        Ok(buf.len())
+    }
+    fn flush(&mut self) -> std::io::Result<()> {
+        Ok(())
+    }
+}
+
+/// `img` laid out in memory as `variant` says (4-aligned store; `seed` picks offset and pitch of `st`)
+fn with_view<R>(img: &Img, color: ColorFormat, variant: &str, seed: u64, f: impl FnOnce(ImageView) -> R) -> Option<R> {
+    let bpr = img.w * img.nch * img.prec.bytes();
+    let (off, pitch) = match variant {
+        "al" => (0usize, bpr),
+        "o1" => (1, bpr),
+        "o2" => (2, bpr),
+        "o3" => (3, bpr),
+        _ => ((seed % 4) as usize, bpr + 1 + (seed / 4 % 11) as usize),
+    };
+    let len = pitch * (img.h - 1) + bpr;
+    let mut store = vec![0xA5A5_A5A5u32; (off + len + pitch) / 4 + 2];
+    let bytes: &mut [u8] = unsafe { std::slice::from_raw_parts_mut(store.as_mut_ptr() as *mut u8, store.len() * 4) };
+    let mut row = Vec::with_capacity(bpr);
+    for y in 0..img.h {
+        row.clear();
+        img.row_bytes(y, &mut row);
+        let s = off + y * pitch;
+        bytes[s..s + bpr].copy_from_slice(&row);
+    }
+    let view = ImageView::new_with(&bytes[off..off + len], pitch, Size::new(img.w as u32, img.h as u32), color)?;
+    Some(f(view))
+}
+
+/// The clauses of the property on one generated chain: `src` is the image generation started from, `levels` the
+/// decoded levels behind it. Constant colour, opacity, range (convex filters). At most two messages.
+fn check_clauses(src: &Img, levels: &[Img], chan: Channels, filter: ResizeFilter, straight: bool, tag: &str, oracle: &mut Vec<String>) {
+    let (n, prec) = (src.nch, src.prec);
+    let ai = alpha_index(chan);
+    let px0: Vec<u32> = (0..n).map(|k| src.d[k]).collect();
+    let constant = (0..src.w * src.h).all(|i| (0..n).all(|k| src.d[i * n + k] == px0[k]));
+    let opaque = ai.map_or(false, |a| (0..src.w * src.h).all(|i| src.d[i * n + a] == prec.max_raw()));
+    let mut lo = vec![f64::INFINITY; n];
+    let mut hi = vec![f64::NEG_INFINITY; n];
+    for i in 0..src.w * src.h {
+        for k in 0..n {
+            let v = prec.val(src.d[i * n + k]);
+            lo[k] = lo[k].min(v);
+            hi[k] = hi[k].max(v);
+        }
+    }
+    let convex = matches!(filter, ResizeFilter::Nearest | ResizeFilter::Box | ResizeFilter::Triangle);
+    let src_transparent = straight && constant && prec.val(px0[3]) == 0.0;
+    let start = oracle.len();
+    for (li, l) in levels.iter().enumerate() {
+        for y in 0..l.h {
+            for x in 0..l.w {
+                let out_transparent = straight && prec.val(l.at(x, y, 3)) == 0.0;
+                for k in 0..n {
+                    if oracle.len() >= start + 2 {
+                        return;
+                    }
+                    let raw = l.at(x, y, k);
+                    let v = prec.val(raw);
+                    let is_alpha = ai == Some(k);
+                    if constant && !(src_transparent && k < 3) {
+                        let ok = match prec {
+                            Prec::F32 => (v - prec.val(px0[k])).abs() <= F32_REL * prec.val(px0[k]).abs(),
+                            _ => raw == px0[k],
+                        };
+                        if !ok {
+                            oracle.push(format!(
+                                "constant: {tag} generated level +{} pixel ({x},{y}) channel {k} is {} but the image is uniformly {}",
+                                li + 1,
+                                show(prec, raw),
+                                show(prec, px0[k])
+                            ));
+                            continue;
+                        }
+                    }
+                    if opaque && is_alpha {
+                        let ok = match prec {
+                            Prec::F32 => (v - 1.0).abs() <= F32_REL,
+                            _ => raw == prec.max_raw(),
+                        };
+                        if !ok {
+                            oracle.push(format!(
+                                "opaque: {tag} generated level +{} pixel ({x},{y}) alpha is {} in a fully opaque image",
+                                li + 1,
+                                show(prec, raw)
+                            ));
+                            continue;
+                        }
+                    }
+                    if convex && !(out_transparent && k < 3) {
+                        let tol = match prec {
+                            Prec::F32 => F32_REL * lo[k].abs().max(hi[k].abs()),
+                            _ => 1.0,
+                        };
+                        if !(v >= lo[k] - tol && v <= hi[k] + tol) {
+                            oracle.push(format!(
+                                "range: {tag} generated level +{} pixel ({x},{y}) channel {k} is {v} outside [{},{}] (+-{tol})",
+                                li + 1,
+                                lo[k],
+                                hi[k]
+                            ));
+                        }
+                    }
+                }
+            }
+        }
+    }
+}
+
+/// `T <kind> <w> <h> <levels> <chan> <prec> <filter> <sa> <starts> <seed>`: a whole file through ONE encoder.
+///   kind    t (single texture) | c (cube map, 6 faces) | a<n> (texture array of n = 2..8 elements)
+///   levels  declared level count 1..255: fewer than, exactly, or MORE than the full chain (levels past 1x1 are 1x1)
+///   starts  one start level k_e < levels per element, comma separated: levels 0..k_e-1 of element e are written by
+///           hand with generation off, then generation is switched on and level k_e is written — the encoder must
+///           generate exactly the levels k_e+1..levels-1 of THAT element behind it
+/// Every written image has its own content (constant colour / opaque noise / bands / holes / noise, from the seed)
+/// and its own memory layout. Oracle: every call and `finish` succeed, the file has exactly the declared length,
+/// and after re-opening every level of every element has the size max(1, dim >> level); hand-written levels read
+/// back as written (lossless target), generated levels satisfy the constant / opaque / range clauses with respect
+/// to the image their generation started from.
+/// Result: `tseq ok gen=<bytes written by the generating call of each element> total=<data bytes> done=<0|1>`.
+fn run_tseq(t: &[&str]) -> Option<(String, Vec<String>)> {
+    if t.len() != 11 {
+        return None;
+    }
+    let elems: usize = match t[1] {
+        "t" => 1,
+        "c" => 6,
+        k => {
+            let n: usize = k.strip_prefix('a')?.parse().ok()?;
+            if !(2..=8).contains(&n) {
+                return None;
+            }
+            n
+        }
+    };
+    let (w, h, mips): (u32, u32, u32) = (t[2].parse().ok()?, t[3].parse().ok()?, t[4].parse().ok()?);
+    if w == 0 || h == 0 || w > 256 || h > 256 || mips == 0 || mips > 255 {
+        return None;
+    }
+    let chan = *CHANS.iter().find(|c| chan_name(**c) == t[5])?;
+    let prec = *PRECS.iter().find(|p| p.name() == t[6])?;
+    let filter = *FILTERS.iter().find(|f| filter_name(**f) == t[7])?;
+    let sa = match t[8] {
+        "0" => false,
+        "1" => true,
+        _ => return None,
+    };
+    let starts: Vec<u32> = t[9].split(',').map(|x| x.parse().ok()).collect::<Option<Vec<u32>>>()?;
+    if starts.len() != elems || starts.iter().any(|k| *k >= mips) {
+        return None;
+    }
+    let seed: u64 = t[10].parse().ok()?;
+    let dim = |d: u32, l: u32| d.checked_shr(l).unwrap_or(0).max(1);
+    let color = ColorFormat::new(chan, precision(prec));
+    let format = target(chan, prec);
+    let straight = sa && chan == Channels::Rgba;
+    let mut oracle: Vec<String> = vec![];
+
+    // what the caller writes: element e, level l <= k_e
+    let image = |e: usize, l: u32| -> Option<Img> {
+        let s = seed ^ 0x7E57_0000 ^ ((e as u64) << 40) ^ ((l as u64) << 48);
+        let mut rng = Rng::new(s);
+        let content = content(&mut rng, prec, chan);
+        make_image(&Cfg { w: dim(w, l), h: dim(h, l), chan, prec, filter, sa, variant: "al".into(), content, seed: s >> 8, mips: None })
+    };
+
+    let header = match t[1] {
+        "t" => dds::header::Header::new_image(w, h, format),
+        "c" => dds::header::Header::new_cube_map(w, h, format),
+        _ => match dds::header::Header::new_image(w, h, format) {
+            dds::header::Header::Dx10(h10) => dds::header::Header::Dx10(h10.with_array_size(elems as u32)),
+            _ => return None,
+        },
+    }
+    .with_mipmap_count(mips);
+    let hdr = 4 + header.byte_len();
+    let sink = Sink(Default::default());
+    let mut gen: Vec<String> = vec![];
+    let done;
+    {
+        let mut enc = match Encoder::new(sink.clone(), format, &header) {
+            Ok(e) => e,
+            Err(e) => {
+                oracle.push(format!("the encoder refuses the header: {e:?}"));
+                return Some(("tseq err new".into(), oracle));
+            }
+        };
+        enc.mipmaps.resize_filter = filter;
+        enc.mipmaps.resize_straight_alpha = sa;
+        enc.options.parallel = seed % 2 == 0;
+        for (e, &k) in starts.iter().enumerate() {
+            for l in 0..=k {
+                enc.mipmaps.generate = l == k;
+                let img = image(e, l)?;
+                let before = sink.0.borrow().len();
+                let variant = VARIANTS[((seed >> 3) as usize + 2 * e + l as usize) % VARIANTS.len()];
+                let r = with_view(&img, color, variant, seed.wrapping_add(e as u64 * 13 + l as u64), |v| enc.write_surface(v))?;
+                if let Err(err) = r {
+                    oracle.push(format!(
+                        "element {e}: writing level {l} ({}x{}, generation {}) failed: {err:?}",
+                        img.w,
+                        img.h,
+                        if l == k { "on" } else { "off" }
+                    ));
+                    return Some(("tseq err write".into(), oracle));
+                }
+                if l == k {
+                    gen.push((sink.0.borrow().len() - before).to_string());
+                }
+            }
+        }
+        done = enc.is_done();
+        if let Err(e) = enc.finish() {
+            oracle.push(format!("every element has been written with generation on for its last hand-written level, finish() says {e:?}"));
+        }
+    }
+    let file = sink.0.borrow().clone();
+    // independent expectation in u128
+    let level_bytes = |l: u32| dim(w, l) as u128 * dim(h, l) as u128 * format_bpp(format) as u128;
+    let total: u128 = (0..mips).map(level_bytes).sum::<u128>() * elems as u128;
+    let data = file.len().saturating_sub(hdr);
+    let result = format!("tseq ok gen={} total={data} done={}", gen.join(","), done as u8);
+    if data as u128 != total {
+        oracle.push(format!(
+            "levels: the file has {data} data bytes, the {elems} x {mips} declared levels need {total} (sizes max(1, dim >> level))"
+        ));
+        return Some((result, oracle));
+    }
+    let mut dec = match Decoder::new(std::io::Cursor::new(&file[..])) {
+        Ok(d) => d,
+        Err(e) => {
+            oracle.push(format!("the finished file does not open: {e:?}"));
+            return Some((result, oracle));
+        }
+    };
+    'elems: for (e, &k) in starts.iter().enumerate() {
+        let mut decoded: Vec<Img> = vec![];
+        for l in 0..mips {
+            let want = Size::new(dim(w, l), dim(h, l));
+            let got = dec.surface_info().map(|i| i.size());
+            if got != Some(want) {
+                oracle.push(format!("levels: element {e} level {l}: the file continues with {got:?}, declared is {want:?}"));
+                break 'elems;
+            }
+            let (lw, lh) = (want.width as usize, want.height as usize);
+            let mut buf = vec![0u8; lw * lh * nch(chan) * prec.bytes()];
+            let view = ImageViewMut::new(&mut buf[..], want, color)?;
+            if let Err(err) = dec.read_surface(view) {
+                oracle.push(format!("element {e} level {l} ({lw}x{lh}) does not decode: {err:?}"));
+                break 'elems;
+            }
+            decoded.push(Img::from_bytes(lw, lh, nch(chan), prec, &buf));
+        }
+        for l in 0..=k {
+            let img = image(e, l)?;
+            if decoded[l as usize].d != img.d {
+                // not a statement about generation if the target were lossy; the targets used here are not
+                oracle.push(format!("levels: element {e} level {l} was written by hand and does not read back as written"));
+                break 'elems;
+            }
+        }
+        let before = oracle.len();
+        check_clauses(&decoded[k as usize], &decoded[k as usize + 1..], chan, filter, straight, &format!("element {e} (generation started at level {k}):"), &mut oracle);
+        if oracle.len() > before {
+            break;
+        }
+    }
+    if oracle.is_empty() && dec.surface_info().is_some() {
+        oracle.push("levels: the file declares more surfaces than elements x levels".into());
+    }
+    Some((result, oracle))
+}
+
 pub fn run(line: &str) -> Option<(String, Vec<String>)> {
     let t: Vec<&str> = line.split_whitespace().collect();
     if t.first() == Some(&"S") {
@@ -686,6 +997,9 @@ pub fn run(line: &str) -> Option<(String, Vec<String>)> {
     }
     if t.first() == Some(&"P") {
         return run_pseq(&t);
+    }
+    if t.first() == Some(&"T") {
+        return run_tseq(&t);
     }
     let c = parse(line)?;
     let img = make_image(&c)?;
@@ -708,7 +1022,7 @@ pub fn run(line: &str) -> Option<(String, Vec<String>)> {
     }
 
     // (1) exactly the declared levels, sizes max(1, dim >> level), nothing else in the file
-    let exp = expected_sizes(c.w, c.h);
+    let exp = expected_sizes(c.w, c.h, c.mips);
     let got: Vec<(u32, u32)> = levels.iter().map(|l| (l.w as u32, l.h as u32)).collect();
     if got != exp {
         oracle.push(format!("levels: expected {:?}, file has {:?}", exp, got));
@@ -1102,6 +1416,97 @@ pub fn gen(seed: u64, thorough: bool) -> Vec<String> {
         let mips = 32 - w.max(h).leading_zeros();
         let k = rng.below(mips as u64);
         out.push(format!("P {w} {h} {k} {} {}", filter_name(*rng.pick(&FILTERS)), rng.next() >> 16));
+    }
+
+    // (own generator state: the cases of the other parts do not move when these parts change)
+    let mut rng2 = Rng::new(seed ^ 0xC16_A5A6);
+    // ---- A5. declared level counts other than the full chain: the header says how many levels there are. Fewer
+    // (generation stops early), and MORE than the image can be halved (legal up to 255: every level past 1x1 is 1x1
+    // again, generated from a 1x1 image), for every colour format, filter and alpha setting.
+    let full = |w: u32, h: u32| 32 - w.max(h).leading_zeros();
+    let declared = |rng2: &mut Rng, w: u32, h: u32| -> u32 {
+        let f = full(w, h);
+        match rng2.below(8) {
+            0 if f > 2 => rng2.range(2, f as u64 - 1) as u32, // short chain
+            1 => (f + 1).min(255),
+            2 | 3 | 4 => f + 1 + rng2.below(4) as u32,
+            5 => f + rng2.range(5, 20) as u32,
+            6 if w * h <= 64 => *rng2.pick(&[255u32, 254, 128, 100]),
+            _ => f + 2,
+        }
+    };
+    let tiny: Vec<(u32, u32)> = vec![(1, 1), (2, 2), (4, 4), (2, 1), (1, 2), (16, 2), (1, 8), (8, 8), (3, 3), (5, 4), (1, 3), (7, 1), (32, 32), (6, 6), (16, 16), (4, 1)];
+    for round in 0..if thorough { 12 } else { 1 } {
+        for chan in CHANS {
+            for prec in PRECS {
+                for (fi, f) in FILTERS.into_iter().enumerate() {
+                    for sa in [false, true] {
+                        for ci in 0..3 {
+                            let (w, h) = if round == 0 { tiny[(ci + 3 * fi + out.len()) % tiny.len()] } else {
+                                match rng2.below(4) {
+                                    0 => *rng2.pick(&tiny),
+                                    1 => *rng2.pick(&small),
+                                    2 => *rng2.pick(&pow2[..49]),
+                                    _ => *rng2.pick(&grid),
+                                }
+                            };
+                            let cont = match ci {
+                                0 => const_content(&mut rng2, prec, chan),
+                                1 => "opaque".to_string(),
+                                _ => content(&mut rng2, prec, chan),
+                            };
+                            let m = if round == 0 && ci < 2 { full(w, h) + 1 + (ci as u32) * 2 } else { declared(&mut rng2, w, h) };
+                            let var = *rng2.pick(&VARIANTS);
+                            out.push(format!("{} m:{m}", line(w, h, chan, prec, f, sa, var, &cont, rng2.next() >> 16)));
+                        }
+                    }
+                }
+            }
+        }
+    }
+
+    // ---- A6. whole files through one encoder: single textures, cube maps and texture arrays with any declared
+    // level count; the chain of every element is started at its own level (0 = from the top; k > 0 = levels 0..k-1
+    // written by hand with generation off). Start patterns: all from the top, the FIRST generation of the encoder
+    // in the middle of a chain and later elements from the top, the reverse, and arbitrary.
+    let kinds = ["t", "c", "a2", "a3", "a4", "a7"];
+    let tsizes: Vec<(u32, u32)> = vec![(16, 16), (8, 8), (4, 4), (1, 1), (2, 2), (13, 5), (1, 9), (32, 4), (7, 7), (64, 64), (100, 3), (9, 9), (17, 8), (5, 5), (3, 1), (32, 32), (12, 20), (1, 2)];
+    let nt = if thorough { 6000 } else { 420 };
+    for i in 0..nt {
+        let kind = kinds[i % kinds.len()];
+        let elems = match kind {
+            "t" => 1,
+            "c" => 6,
+            k => k[1..].parse::<usize>().unwrap(),
+        };
+        let (w, h) = if i % 3 == 0 { (rng2.range(1, 40) as u32, rng2.range(1, 40) as u32) } else { *rng2.pick(&tsizes) };
+        let f = full(w, h);
+        let mips = match rng2.below(6) {
+            0 | 1 => f,
+            2 if f > 2 => rng2.range(2, f as u64) as u32,
+            3 => f + 1 + rng2.below(3) as u32,
+            4 => f + rng2.range(1, 12) as u32,
+            _ => f.max(3),
+        };
+        let any = |rng2: &mut Rng| rng2.below(mips as u64) as u32;
+        let mid = |rng2: &mut Rng| if mips > 1 { rng2.range(1, mips as u64 - 1) as u32 } else { 0 };
+        let starts: Vec<u32> = match (i / kinds.len()) % 5 {
+            0 => vec![0; elems],
+            1 => (0..elems).map(|e| if e == 0 { mid(&mut rng2) } else { 0 }).collect(),
+            2 => (0..elems).map(|e| if e + 1 == elems { mid(&mut rng2) } else { 0 }).collect(),
+            3 => (0..elems).map(|e| if e == 0 { mid(&mut rng2) } else if rng2.chance(1, 2) { 0 } else { any(&mut rng2) }).collect(),
+            _ => (0..elems).map(|_| any(&mut rng2)).collect(),
+        };
+        let (chan, prec, filter, sa, _) = any_cfg(&mut rng2);
+        out.push(format!(
+            "T {kind} {w} {h} {mips} {} {} {} {} {} {}",
+            chan_name(chan),
+            prec.name(),
+            filter_name(filter),
+            sa as u8,
+            starts.iter().map(|k| k.to_string()).collect::<Vec<_>>().join(","),
+            rng2.next() >> 16
+        ));
     }
 
     // ---- B. size sweep
